@@ -85,7 +85,27 @@ func (r *request) isMultipart(mediaType string) bool {
 		return true
 	}
 
-	return runtime.MultipartFormMime == mediaType
+	return runtime.MultipartFormMime == bareMediaType(mediaType)
+}
+
+// bareMediaType reduces a media type as a description may spell it ("Application/JSON; charset=utf-8") to the form the
+// producer and consumer maps are keyed by: the bare type in lower case.
+func bareMediaType(mediaType string) string {
+	if i := strings.IndexByte(mediaType, ';'); i >= 0 {
+		mediaType = mediaType[:i]
+	}
+	return strings.ToLower(strings.TrimSpace(mediaType))
+}
+
+// producerFor looks the producer up under the media type as spelled, then under its bare lower-case form.
+func producerFor(producers map[string]runtime.Producer, mediaType string) runtime.Producer {
+	if p, ok := producers[mediaType]; ok {
+		return p
+	}
+	if p, ok := producers[bareMediaType(mediaType)]; ok {
+		return p
+	}
+	return nil
 }
 
 // BuildHTTP creates a new http request based on the data from the params
@@ -230,8 +250,8 @@ func (r *request) buildHTTP(mediaType, basePath string, producers map[string]run
 			goto DoneChoosingBodySource
 		}
 
-		producer, ok := producers[mediaType]
-		if !ok {
+		producer := producerFor(producers, mediaType)
+		if producer == nil {
 			// e.g. a body parameter on an operation whose first media type is a form type
 			return nil, fmt.Errorf("no producer registered for %q: cannot write the body parameter", mediaType)
 		}
